@@ -202,9 +202,30 @@ type SliceReader struct {
 	Toks []xml.Token
 	Fail bool
 	i    int
+	// Mid (if set) is called once, before the token with index MidAt is handed
+	// out: the caller of Token is then in the middle of its element.
+	Mid   func()
+	MidAt int
+}
+
+// MidPoint is the pseudo yield point at which an actor pauses in the middle of
+// its element (inside its argument reader, its WriteXML, between two tokens
+// written to a token writer or a handler's encoder).
+const MidPoint = "harness.mid"
+
+func midHook(c *Call) func() {
+	if c == nil || !c.Mid {
+		return nil
+	}
+	return func() { TheGate.Hook(MidPoint) }
 }
 
 func (r *SliceReader) Token() (xml.Token, error) {
+	if r.Mid != nil && r.i == r.MidAt && r.i < len(r.Toks) {
+		f := r.Mid
+		r.Mid = nil
+		f()
+	}
 	if r.i < len(r.Toks) {
 		r.i++
 		return r.Toks[r.i-1], nil
@@ -255,14 +276,24 @@ func NewSliceReader(ts []MTok, fail bool) *SliceReader {
 	return &SliceReader{Toks: XMLToks(ts), Fail: fail}
 }
 
+// NewMidReader is NewSliceReader with the pause hook of call c (if it has one)
+// before the token with index at.
+func NewMidReader(c *Call, ts []MTok, fail bool, at int) *SliceReader {
+	return &SliceReader{Toks: XMLToks(ts), Fail: fail, Mid: midHook(c), MidAt: at}
+}
+
 // writerTo implements only xmlstream.WriterTo.
 type writerTo struct {
 	toks []xml.Token
 	fail bool
+	mid  func()
 }
 
 func (w writerTo) WriteXML(dst xmlstream.TokenWriter) (int, error) {
 	for i, t := range w.toks {
+		if i == 1 && w.mid != nil {
+			w.mid()
+		}
 		if err := dst.EncodeToken(t); err != nil {
 			return i, err
 		}
@@ -277,9 +308,10 @@ func (w writerTo) WriteXML(dst xmlstream.TokenWriter) (int, error) {
 type marshaler struct {
 	toks []MTok
 	fail bool
+	c    *Call
 }
 
-func (m marshaler) TokenReader() xml.TokenReader { return NewSliceReader(m.toks, m.fail) }
+func (m marshaler) TokenReader() xml.TokenReader { return NewMidReader(m.c, m.toks, m.fail, 1) }
 
 // XMLValue is marshaled by encoding/xml through its MarshalXML method, which
 // writes the tokens of a tree (or fails).
@@ -330,13 +362,17 @@ func MarshalRaw(v interface{}, raw bool) ([]MTok, error) {
 // GoValue builds the Go value of a call's value form. src are the tokens the
 // value is made of (for struct: the tokens its MarshalXML writes).
 func GoValue(form string, src []MTok, fail, merr bool) interface{} {
+	return goValue(nil, form, src, fail, merr)
+}
+
+func goValue(c *Call, form string, src []MTok, fail, merr bool) interface{} {
 	switch form {
 	case "writerto":
-		return writerTo{toks: XMLToks(src), fail: fail}
+		return writerTo{toks: XMLToks(src), fail: fail, mid: midHook(c)}
 	case "marshaler":
-		return marshaler{toks: src, fail: fail}
+		return marshaler{toks: src, fail: fail, c: c}
 	case "tokenreader":
-		return NewSliceReader(src, fail)
+		return NewMidReader(c, src, fail, 1)
 	}
 	return XMLValue{Toks: src, Err: merr}
 }
@@ -402,12 +438,12 @@ func (tg *Target) exec(c *Call, src []MTok) []string {
 	s := tg.X.S
 	switch c.Kind {
 	case "send":
-		r := NewSliceReader(src, c.Fail)
+		r := NewMidReader(c, src, c.Fail, 1)
 		err := s.Send(ctx, r)
 		c.Mutated = r.changed(src)
 		return one(err)
 	case "sendelement":
-		r := NewSliceReader(src, c.Fail)
+		r := NewMidReader(c, src, c.Fail, 0)
 		st := c.Start.XML().(xml.StartElement)
 		err := s.SendElement(ctx, r, st)
 		c.Mutated = r.changed(src)
@@ -416,9 +452,9 @@ func (tg *Target) exec(c *Call, src []MTok) []string {
 		}
 		return one(err)
 	case "encode":
-		return one(s.Encode(ctx, GoValue(c.Form, src, c.Fail, c.MErr)))
+		return one(s.Encode(ctx, goValue(c, c.Form, src, c.Fail, c.MErr)))
 	case "encodeelement":
-		return one(s.EncodeElement(ctx, GoValue(c.Form, src, c.Fail, c.MErr), c.Start.XML().(xml.StartElement)))
+		return one(s.EncodeElement(ctx, goValue(c, c.Form, src, c.Fail, c.MErr), c.Start.XML().(xml.StartElement)))
 	case "tokenwriter":
 		w := s.TokenWriter()
 		var out []string
@@ -430,6 +466,9 @@ func (tg *Target) exec(c *Call, src []MTok) []string {
 		for i := range src {
 			for k := 0; k < fl[i]; k++ {
 				out = append(out, ErrClass(w.Flush()))
+			}
+			if i == 1 && c.Mid {
+				TheGate.Hook(MidPoint)
 			}
 			out = append(out, ErrClass(w.EncodeToken(given[i])))
 		}
@@ -487,7 +526,7 @@ func (tg *Target) execSendX(c *Call, src []MTok) []string {
 	var err error
 	switch c.API {
 	case "SendIQ", "SendMessage", "SendPresence":
-		r := NewSliceReader(src, c.Fail)
+		r := NewMidReader(c, src, c.Fail, 1)
 		switch c.API {
 		case "SendIQ":
 			rc, err = s.SendIQ(ctx, r)
@@ -498,23 +537,23 @@ func (tg *Target) execSendX(c *Call, src []MTok) []string {
 		}
 		c.Mutated = r.changed(src)
 	case "EncodeIQ":
-		rc, err = s.EncodeIQ(ctx, GoValue(c.Form, src, c.Fail, c.MErr))
+		rc, err = s.EncodeIQ(ctx, goValue(c, c.Form, src, c.Fail, c.MErr))
 	case "EncodeMessage":
-		rc, err = s.EncodeMessage(ctx, GoValue(c.Form, src, c.Fail, c.MErr))
+		rc, err = s.EncodeMessage(ctx, goValue(c, c.Form, src, c.Fail, c.MErr))
 	case "EncodePresence":
-		rc, err = s.EncodePresence(ctx, GoValue(c.Form, src, c.Fail, c.MErr))
+		rc, err = s.EncodePresence(ctx, goValue(c, c.Form, src, c.Fail, c.MErr))
 	case "SendIQElement":
-		rc, err = s.SendIQElement(ctx, NewSliceReader(src, c.Fail), c.Hdr.IQ())
+		rc, err = s.SendIQElement(ctx, NewMidReader(c, src, c.Fail, 0), c.Hdr.IQ())
 	case "SendMessageElement":
-		rc, err = s.SendMessageElement(ctx, NewSliceReader(src, c.Fail), c.Hdr.Message())
+		rc, err = s.SendMessageElement(ctx, NewMidReader(c, src, c.Fail, 0), c.Hdr.Message())
 	case "SendPresenceElement":
-		rc, err = s.SendPresenceElement(ctx, NewSliceReader(src, c.Fail), c.Hdr.Presence())
+		rc, err = s.SendPresenceElement(ctx, NewMidReader(c, src, c.Fail, 0), c.Hdr.Presence())
 	case "EncodeIQElement":
-		rc, err = s.EncodeIQElement(ctx, GoValue(c.Form, src, c.Fail, c.MErr), c.Hdr.IQ())
+		rc, err = s.EncodeIQElement(ctx, goValue(c, c.Form, src, c.Fail, c.MErr), c.Hdr.IQ())
 	case "EncodeMessageElement":
-		rc, err = s.EncodeMessageElement(ctx, GoValue(c.Form, src, c.Fail, c.MErr), c.Hdr.Message())
+		rc, err = s.EncodeMessageElement(ctx, goValue(c, c.Form, src, c.Fail, c.MErr), c.Hdr.Message())
 	case "EncodePresenceElement":
-		rc, err = s.EncodePresenceElement(ctx, GoValue(c.Form, src, c.Fail, c.MErr), c.Hdr.Presence())
+		rc, err = s.EncodePresenceElement(ctx, goValue(c, c.Form, src, c.Fail, c.MErr), c.Hdr.Presence())
 	default:
 		panic("execSendX: bad API " + c.API)
 	}
